@@ -19,6 +19,7 @@ from .values import SymBool, SymBytes, SymInt, SymStr, conc
 
 VERIF = os.path.dirname(os.path.dirname(os.path.abspath(__file__)))
 EXIT_HARNESS = 3
+DEFAULT_OB_TIMEOUT = [300]  # seconds per obligation task (driver: 300 quick / 3000 thorough)
 
 
 class SymCtx:
@@ -230,7 +231,7 @@ def _perturb(v):
 class Ob:
     def __init__(self, name, module, func, params=None, tick_budget=None, allow_opaque=False,
                  split=False, max_paths=200000, timeout_s=None, budget_is_violation=False,
-                 canary=True, fork_cap=4096, exc_ok=False, abstract_dicts=False):
+                 canary=True, fork_cap=1024, exc_ok=False, abstract_dicts=False):
         self.name = name
         self.module = module
         self.func = func
@@ -258,7 +259,7 @@ def _run_ob(task):
         loader.install()
         mod = importlib.import_module(ob.module)
         fn = getattr(mod, ob.func)
-        deadline = (t0 + ob.timeout_s) if ob.timeout_s else None
+        deadline = t0 + (ob.timeout_s or DEFAULT_OB_TIMEOUT[0])
         ex = _ex.Explorer(tick_budget=ob.tick_budget or 500000, seed=seed, timeout_ms=solver_timeout_ms,
                           fork_cap=ob.fork_cap, max_paths=path_cap or ob.max_paths,
                           allow_opaque=ob.allow_opaque, deadline=deadline,
